@@ -594,6 +594,67 @@ class Repo:
             return True
         return False
 
+    def cached_value_factory(self, fi: 'FuncInfo') -> bool:
+        """``@functools.lru_cache`` (or ``cache``) on a function whose body is ``return Class(<its parameters>)`` of a class whose
+        instances are never written after construction: whether a result is shared or built anew cannot be observed, the
+        decorator is transparent"""
+        decos = [ast.unparse(d).split('(')[0].split('.')[-1] for d in fi.node.decorator_list]
+        if not decos or any(d not in ('lru_cache', 'cache') for d in decos):
+            return False
+        body = body_without_docstring(fi.node)
+        if len(body) != 1 or not isinstance(body[0], ast.Return) or not isinstance(body[0].value, ast.Call):
+            return False
+        call = body[0].value
+        try:
+            r = self.resolve_expr(call.func, fi.module)
+        except Exception:
+            return False
+        if not isinstance(r, ClassRef):
+            return False
+        params = set(fi.params)
+        if not all(isinstance(a, (ast.Name, ast.Constant)) and (isinstance(a, ast.Constant) or a.id in params) for a in call.args) \
+                or call.keywords:
+            return False
+        return self.effectively_immutable(self.cls(r.module, r.name))
+
+    def effectively_immutable(self, c: 'ClassInfo') -> bool:
+        """instances of the class are never written after construction anywhere in the package: every attribute its constructor
+        sets is stored only inside ``__init__`` methods, and it defines no method that stores to ``self``"""
+        cache = self.__dict__.setdefault('_immut_cache', {})
+        if c.key in cache:
+            return cache[c.key]
+        stores: Dict[str, Set[str]] = self.__dict__.get('_attr_store_sites')
+        if stores is None:
+            stores = {}
+            for f in self.all_functions():
+                for n in ast.walk(f.node):
+                    if isinstance(n, ast.Attribute) and isinstance(n.ctx, (ast.Store, ast.Del)):
+                        stores.setdefault(n.attr, set()).add(f.name)
+            self.__dict__['_attr_store_sites'] = stores
+        ok = True
+        attrs = set()
+        for k in c.mro():
+            init = k.methods.get('__init__')
+            if init is not None:
+                for n in ast.walk(init.node):
+                    if isinstance(n, ast.Attribute) and isinstance(n.ctx, ast.Store) and isinstance(n.value, ast.Name) \
+                            and init.params and n.value.id == init.params[0]:
+                        attrs.add(n.attr)
+            for nm, fn in k.methods.items():
+                if nm == '__init__':
+                    continue
+                for n in ast.walk(fn.node):
+                    if isinstance(n, ast.Attribute) and isinstance(n.ctx, (ast.Store, ast.Del)) and isinstance(n.value, ast.Name) \
+                            and fn.params and n.value.id == fn.params[0]:
+                        ok = False
+            if k.setters:
+                ok = False
+        for a in attrs:
+            if not stores.get(a, set()) <= {'__init__'}:
+                ok = False
+        cache[c.key] = ok and bool(attrs)
+        return cache[c.key]
+
     def is_helper_class(self, c: 'ClassInfo') -> bool:
         """a class that did not exist when the rule instances were confirmed (oracles/inventory.py)"""
         from .oracles.inventory import CLASSES
